@@ -629,6 +629,65 @@ func init() {
 							bad = "cleared in place in reset() at " + c.pos(st.ins.Pos())
 						}
 					}
+					// delete(m, k) on the escaping map: the earlier segment's map is emptied
+					for _, g := range c.srcFns {
+						for _, gb := range g.Blocks {
+							for _, gi := range gb.Instrs {
+								call, ok := gi.(*ssa.Call)
+								if !ok {
+									continue
+								}
+								if bi, ok := call.Call.Value.(*ssa.Builtin); !ok || bi.Name() != "delete" {
+									continue
+								}
+								if ld, ok := call.Call.Args[0].(*ssa.UnOp); ok && ld.Op == token.MUL {
+									if fa2, ok := ld.X.(*ssa.FieldAddr); ok {
+										if o2, f2 := fieldAddrInfo(fa2); o2 != nil && o2.Obj() == it && f2.Name() == f.Name() {
+											bad = "emptied in place with delete() at " + c.pos(call.Pos()) + " (the map an earlier segment still holds)"
+										}
+									}
+								}
+							}
+						}
+					}
+					// the fresh value must be established on EVERY path of one of the
+					// re-establishing functions (reset / convert / newWithChunkMode),
+					// not only when the field happens to be nil
+					everyPath := false
+					byFn := map[*ssa.Function]map[*ssa.BasicBlock]bool{}
+					for _, st := range c.census().fieldStores[fieldKey{it, f.Name()}] {
+						isFresh := false
+						switch v := st.val.(type) {
+						case *ssa.Const:
+							isFresh = v.IsNil()
+						case *ssa.MakeMap, *ssa.MakeSlice:
+							isFresh = true
+						}
+						if isFresh {
+							if byFn[st.fn] == nil {
+								byFn[st.fn] = map[*ssa.BasicBlock]bool{}
+							}
+							byFn[st.fn][st.ins.Block()] = true
+						}
+					}
+					for g, via := range byFn {
+						all := true
+						nret := 0
+						for _, gb := range g.Blocks {
+							if _, isRet := gb.Instrs[len(gb.Instrs)-1].(*ssa.Return); isRet {
+								nret++
+								if !coveredOnAllPaths(g, via, gb) {
+									all = false
+								}
+							}
+						}
+						if all && nret > 0 {
+							everyPath = true
+						}
+					}
+					if bad == "" && fresh && !everyPath {
+						bad = "given a fresh value only on some paths of the functions that re-establish it: a pooled builder can keep the map/slice an earlier segment still holds"
+					}
 					switch {
 					case bad != "":
 						r.bad(key, fnName(fn), c.pos(site.Pos()), "interim."+f.Name()+" escapes into the returned Segment but is "+bad)
